@@ -452,14 +452,16 @@ pub fn run_receiver_only<M: ZooMsg + ?Sized>(
     let is_async = sc.world == WorldKind::Async;
     let mut knobs = draw_knobs(if is_async { "C08" } else { "C07" }, sc.world, &mut dec, &plan);
     knobs.pipe_cap = stream.len() + 1;
-    if plan.bmode == 2 && knobs.rchunk_mode == 1 {
-        knobs.rchunk_mode = 2;
-    }
     if prop == "C10" {
         // every prefix length should be validated often: over-weight 1-byte reads
         if dec.chance(St::Cfg, 1, 3) {
             knobs.rchunk_mode = 1;
         }
+    }
+    if plan.bmode == 2 && knobs.rchunk_mode == 1 {
+        // 64 KiB messages: every read re-validates the whole buffer, byte-at-a-time delivery
+        // would be quadratic (seconds per run)
+        knobs.rchunk_mode = 2;
     }
     let mut world = World::new(dec, knobs, keep_log);
     world.stats = stats;
